@@ -17,8 +17,8 @@ RULE = ('all seven queue classes x small stimulus sets (1-3 stimuli, lengths 1..
 TRUSTED = ['harness/queuecore.py']
 ASSUMPTIONS = ['pause/resume times are T0 + k/fs with k on or off the grid; the model gets the sample index int(round((t - t0)*fs)) computed with the code\'s own float '
                'expression, and "not after the clock" / "ends after t" are judged on that index (the code compares on the sample grid after the repair)',
-               'a rejected (future) pause does NOT end the history: what it leaves behind is compared with the model (cancel + requeue + log trimming done, clock '
-               'kept, paused); the oracle takes its removed notifications at face value (each must be a live presentation) and keeps checking conservation',
+               'a rejected (future) pause does NOT end the history: what it leaves behind is compared with the model (after the repair: the queue untouched); '
+               'the oracle demands no notification and an unchanged status (clock, empty flag, counters), the queue running / paused as before, and keeps checking conservation',
                'declared durations are whole numbers of samples (they may differ from the waveform length: "ends after t" is about the declared duration)',
                'trials set up with decrement=False are notified as removed but nothing is restored (requeue docstring); conservation counts decremented trials only']
 FS = [1000.0, 195312.5, 97656.25]
@@ -98,7 +98,7 @@ def _rand_hist(c, rng, nops):
                 continue
             t = rng.randint(max(0, clock - 15), clock) + rng.choice([0, 0, 0.3, -0.3, 0.5, -0.5, 0.45])
             if rng.random() < 0.12:
-                ops.append(['pause', clock + rng.choice([1, 2, 3, 6, 30])])      # rejected: the clock stays, the history goes on
+                ops.append(['pause', clock + rng.choice([1, 2, 3, 6, 30])])      # rejected: nothing changes, the history goes on
                 continue
             if t < 0 or qc.eff_time(c, t) > clock:
                 t = clock
@@ -277,22 +277,19 @@ def oracle(case, res):
     timed_pause = False
     expect_start = None
     clk = 0            # queue clock (samples) before the current operation
+    prev_status = None # status after the previous operation
     for o, r in zip(case['ops'], res):
         if o[0] == 'pause':
             t = None if o[1] is None else qc.eff_time(case, o[1])      # sample index the time denotes
             if 'raised' in r:
-                # must be a future pause.  The property does not say what a rejected pause leaves behind, so the
-                # notifications are taken at face value: whatever it announced as removed must have been live
-                # (never the same presentation twice), and the accounting below must go on holding.
+                # must be a future pause, and the rejection comes before anything is cancelled: no notification, the
+                # status as it was, the queue running / paused as before (the accounting below goes on holding)
                 if not (t is not None and t > clk):
                     return 'pause raised ValueError for a time not after the clock'
-                for e in r['events']:
-                    if e[0] == 'removed':
-                        hit = [y for y in live if y[:2] == [e[1], e[2]]]
-                        if not hit:
-                            return f'rejected pause({o[1]}): removed notification for trial {[e[1], e[2]]}, which is not a live presentation'
-                        live.remove(hit[0])
-                paused = None              # not stated: running or paused
+                if r['events']:
+                    return f'rejected pause({o[1]}) sent notifications {r["events"]}'
+                if prev_status is not None and r['status'] != prev_status:
+                    return f'rejected pause({o[1]}) changed the status from {prev_status} to {r["status"]}'
             elif t is not None:
                 if t > clk:
                     return 'a pause time later than the queue clock was accepted'
@@ -308,7 +305,7 @@ def oracle(case, res):
                 return 'pause() without a time sent notifications'
             if 'raised' not in r:
                 paused = True
-            timed_pause = timed_pause or t is not None
+                timed_pause = timed_pause or t is not None
         elif o[0] == 'resume':
             paused = False
             # after pause(t) nothing is pending, so the next trial starts at the resume time; after an
@@ -339,6 +336,7 @@ def oracle(case, res):
                 live.append([e[1], e[2], e[6]])
         # conservation at every step: remaining = requested - live (automatically decremented) presentations
         if 'status' in r:
+            prev_status = r['status']
             clk = r['status']['samples']
             net = [sum(1 for x in live if x[0] == k and x[2]) for k in range(len(stims))]
             want = [a - b for a, b in zip(req, net)]
